@@ -30,6 +30,7 @@ def run(ck):
     ck.rule("C05.R3", "slot cleared only by the last CloseGuard of a closing span (after on_close)", floor=6)
     ck.rule("C05.R4", "Clear resets every stored field not overwritten at creation", floor=5)
     ck.rule("C05.R5", "the registry's own references are released through the owning stack", floor=2)
+    ck.rule("C05.R8", "reload::Subscriber forwards on_close (and every other notification) under a blocking per-call lock (as C12.R3)", floor=20)
     ck.rule("C05.R7", "collector wrappers forward the reference-counting and enter/exit calls (as C09.R1/R2)", floor=25)
     ck.rule("C05.R6", "the entered reference is released by exactly the stack entry that took it (push/pop discipline, as C06.R2)", floor=3)
     for cfg in configs:
@@ -51,6 +52,9 @@ def run(ck):
             from rules import C09
             C09.wrapper_rules(ck, F, rids={"R0": "C05.R7", "R1": "C05.R7", "R2": "C05.R7", "R3": "C05.R7"}, traits=["tracing_core::collect::Collect"],
                               only={"new_span", "clone_span", "try_close", "drop_span", "enter", "exit"})
+            # a layer behind reload::Subscriber gets its on_close (and everything else) only if the wrapper waits for its lock
+            from rules import C12
+            C12.r3(ck, F, rid="C05.R8")
     ck.tag = ""
 
 
